@@ -811,16 +811,18 @@ func minimise(bin string, j Job) (Job, bool) {
 		return j, confirm(bin, j)
 	}
 	budget := 120
+	minDeadline := time.Now().Add(150 * time.Second)
 	var w *worker
 	try := func(c Job) (Result, bool) {
-		if budget <= 0 {
+		if budget <= 0 || time.Now().After(minDeadline) {
+			budget = 0
 			return Result{}, false
 		}
 		budget--
 		if w == nil || !w.alive {
 			w = startWorker(bin)
 		}
-		r := w.run(c, 120*time.Second)
+		r := w.run(c, 40*time.Second)
 		return r, hasClass(j.Property, r, j.Class)
 	}
 	cur := j
